@@ -103,7 +103,7 @@ func genProgram(r *rng, p genParams) *Prog {
 	disabled := map[string]bool{}
 	var allowedKinds []int
 	if p.Swarm {
-		for _, op := range []string{"setfield", "alias", "typedef", "moduleasm", "setasm", "setchars", "attrgroup", "global", "setname", "setop", "setinc", "setgep", "addparam", "setaliasee", "settype", "remove", "md", "insert"} {
+		for _, op := range []string{"setfield", "alias", "typedef", "moduleasm", "setasm", "setchars", "attrgroup", "global", "setname", "setop", "setinc", "setgep", "addparam", "setaliasee", "settype", "remove", "md", "insert", "moveblock", "uselist", "detach", "reattach", "mdid"} {
 			if r.chance(1, 2) {
 				disabled[op] = true
 			}
@@ -210,7 +210,7 @@ func genProgram(r *rng, p genParams) *Prog {
 		case x < 10:
 			add(Step{Op: "func", K: r.intn(5), A: r.intn(4), B: sel(), C: sel(), D: sel(), P: deco(), Name: name()})
 		case x < 20:
-			add(Step{Op: "block", A: sel(), Name: name()})
+			add(Step{Op: "block", A: sel(), P: sel(), Name: name()})
 		case x < 58:
 			add(Step{Op: "inst", K: instKind(), A: sel(), B: sel(), C: sel(), D: sel(), P: sel(), Name: name()})
 		case x < 68:
@@ -222,7 +222,15 @@ func genProgram(r *rng, p genParams) *Prog {
 		case x < 88:
 			add(Step{Op: "setop", K: r.intn(6), A: sel(), B: sel(), C: sel(), D: sel(), P: sel()})
 		case x < 92:
-			switch r.intn(7) {
+			switch r.intn(11) {
+			case 7:
+				add(Step{Op: "moveblock", A: sel(), B: sel(), C: sel()})
+			case 8:
+				add(Step{Op: "uselist", A: sel(), B: sel(), C: sel()})
+			case 9:
+				add(Step{Op: "detach", A: sel(), B: sel(), C: sel()})
+			case 10:
+				add(Step{Op: "reattach", A: sel(), P: sel()})
 			case 5:
 				add(Step{Op: "addclause", K: r.intn(3), A: sel(), B: sel()})
 			case 6:
@@ -334,11 +342,42 @@ type machine struct {
 	viaUsed  bool
 	// explicitMD: see Prog.ExplicitMD.
 	explicitMD bool
+	// limbo: instructions taken out of their block by "detach", not yet put back.
+	limbo []detached
+	// ulUses: how many of the uses of a value are use-list order directives.
+	ulUses map[value.Value]int
+}
+
+type detached struct {
+	in ir.Instruction
+	b  *ir.Block
+}
+
+// reattach puts a detached instruction back into the block it came from (if that
+// block still exists in some function; otherwise it stays out, with its uses).
+func (mc *machine) reattach(d detached, pos int) {
+	for _, f := range mc.funcs {
+		for _, b := range f.f.Blocks {
+			if b == d.b {
+				p := pos % (len(b.Insts) + 1)
+				b.Insts = append(b.Insts, nil)
+				copy(b.Insts[p+1:], b.Insts[p:])
+				b.Insts[p] = d.in
+				return
+			}
+		}
+	}
+	mc.unuse(d.in)
 }
 
 type mfunc struct {
 	f      *ir.Func
 	lnames map[string]bool
+}
+
+// newLiteralModule is a module written as a struct literal (no constructor runs).
+func newLiteralModule() *ir.Module {
+	return &ir.Module{NamedMetadataDefs: map[string]*metadata.NamedDef{}}
 }
 
 func newMachine() *machine {
@@ -1064,7 +1103,14 @@ func (mc *machine) exec1(s Step) bool {
 			if b == nil {
 				return false
 			}
-			g = mc.m.NewGlobalDef(name, constant.NewBlockAddress(f.f, b))
+			if s.A%3 == 1 && len(mc.globals) > 0 {
+				// ... inside an arithmetic expression (an entry of a relative jump table)
+				anchor := mc.globals[s.B%len(mc.globals)]
+				g = mc.m.NewGlobalDef(name, constant.NewTrunc(constant.NewSub(constant.NewPtrToInt(constant.NewBlockAddress(f.f, b), tI64), constant.NewPtrToInt(anchor, tI64)), tI32))
+				mc.probes["blockaddress inside an arithmetic constant expression"]++
+			} else {
+				g = mc.m.NewGlobalDef(name, constant.NewBlockAddress(f.f, b))
+			}
 			mc.probes["blockaddress initialiser"]++
 		}
 		if mc.printedOnce && name == "" {
@@ -1348,7 +1394,102 @@ func (mc *machine) exec1(s Step) bool {
 		if f == nil {
 			return false
 		}
+		if s.P%2 == 1 {
+			// created on its own and put into the function by hand (no parent link)
+			f.f.Blocks = append(f.f.Blocks, ir.NewBlock(mc.uniq(f.lnames, s.Name)))
+			mc.probes["block created with ir.NewBlock and appended by hand"]++
+			return true
+		}
 		f.f.NewBlock(mc.uniq(f.lnames, s.Name))
+		return true
+	case "moveblock":
+		// An empty block nobody refers to is taken out of one function and appended
+		// to another (outlining moves whole blocks).
+		f, g := mc.fn(s.A), mc.fn(s.C)
+		if f == nil || g == nil || f == g || len(f.f.Blocks) < 2 {
+			return false
+		}
+		i := s.B % len(f.f.Blocks)
+		b := f.f.Blocks[i]
+		if len(b.Insts) != 0 || mc.uses[b] > 0 {
+			return false
+		}
+		for _, d := range mc.limbo {
+			if d.b == b {
+				return false // an instruction of this block is waiting to be put back
+			}
+		}
+		if b.Term != nil {
+			if _, ok := b.Term.(*ir.TermUnreachable); !ok {
+				return false
+			}
+		}
+		if !b.IsUnnamed() {
+			if g.lnames[b.Name()] {
+				return false
+			}
+			delete(f.lnames, b.Name())
+			g.lnames[b.Name()] = true
+		}
+		f.f.Blocks = append(f.f.Blocks[:i:i], f.f.Blocks[i+1:]...)
+		g.f.Blocks = append(g.f.Blocks, b)
+		mc.probes["block moved to another function"]++
+		if mc.printedOnce {
+			mc.probes["block moved to another function after a print"]++
+		}
+		return true
+	case "uselist":
+		// A function-level use-list order directive on a local value.
+		f := mc.fn(s.A)
+		b := mc.block(f, s.B)
+		if b == nil || len(b.Insts) == 0 || len(f.f.UseListOrders) >= 3 {
+			return false
+		}
+		v, ok := b.Insts[s.C%len(b.Insts)].(value.Value)
+		if !ok || mc.typeOf(v).Equal(types.Void) {
+			return false
+		}
+		f.f.UseListOrders = append(f.f.UseListOrders, &ir.UseListOrder{Value: v, Indices: []uint64{1, 0}})
+		// (the directive is a user: the value may be moved, never removed for good)
+		mc.uses[v]++
+		if mc.ulUses == nil {
+			mc.ulUses = map[value.Value]int{}
+		}
+		mc.ulUses[v]++
+		mc.probes["function-level uselistorder directive"]++
+		return true
+	case "detach":
+		// An instruction nobody uses is taken out of its block, to be put back later
+		// (moving an instruction is a removal followed by an insertion).
+		f := mc.fn(s.A)
+		b := mc.block(f, s.B)
+		if b == nil || len(b.Insts) == 0 || len(mc.limbo) >= 4 {
+			return false
+		}
+		var idx []int
+		for i, in := range b.Insts {
+			if v, ok := in.(value.Value); ok && mc.uses[v]-mc.ulUses[v] > 0 {
+				continue
+			}
+			idx = append(idx, i)
+		}
+		if len(idx) == 0 {
+			return false
+		}
+		i := idx[s.C%len(idx)]
+		mc.limbo = append(mc.limbo, detached{in: b.Insts[i], b: b})
+		b.Insts = append(b.Insts[:i:i], b.Insts[i+1:]...)
+		mc.probes["instruction taken out of its block (to be put back)"]++
+		return true
+	case "reattach":
+		if len(mc.limbo) == 0 {
+			return false
+		}
+		k := s.A % len(mc.limbo)
+		d := mc.limbo[k]
+		mc.limbo = append(mc.limbo[:k:k], mc.limbo[k+1:]...)
+		mc.reattach(d, s.P)
+		mc.probes["instruction put back into its block"]++
 		return true
 	case "inst", "insert":
 		f := mc.fn(s.A)
@@ -1861,6 +2002,10 @@ func (mc *machine) renameProbe(wasUnnamed, becomesUnnamed bool) {
 
 // finalize gives every block a terminator so that the module can be printed.
 func (mc *machine) finalize() {
+	for _, d := range mc.limbo {
+		mc.reattach(d, 0)
+	}
+	mc.limbo = nil
 	for _, f := range mc.funcs {
 		for _, b := range f.f.Blocks {
 			if b.Term == nil {
@@ -2120,6 +2265,9 @@ func runProgramAlone(p *Prog) (m *ir.Module, mc *machine, err error) {
 	mc = newMachine()
 	mc.illFormed = p.IllFormed
 	mc.literal = p.Literal
+	if p.Literal {
+		mc.m = newLiteralModule()
+	}
 	mc.richConsts = p.Rich
 	mc.explicitMD = p.ExplicitMD
 	if pan, msg := protect(func() {
